@@ -19,7 +19,9 @@ RULE = ("patterns are PRINTED from ASTs of the documented grammar (the model re-
         "targets, absent/present module, file, line (incl. 0 and u32::MAX), MDC maps of <= 3 entries, named / "
         "unnamed threads; (f) 36 (thorough 180) local/utc date patterns rendered while the harness PROCESS's time zone "
         "changes between records (TZ switched among JST-9, EST5, Asia/Kolkata, UTC0, America/St_Johns): a local date "
-        "must follow the zone of the moment it is rendered. thorough: debug AND release harness builds. "
+        "must follow the zone of the moment it is rendered; (g) 44 (thorough 232) patterns containing {m} encoded while the "
+        "message argument's own Display impl encodes another record through a {m} pattern on the same thread "
+        "(re-entrant encode: both outputs must be what they are without the nesting). thorough: debug AND release harness builds. "
         "non-trivial = the pattern contains a formatter and the AST is well-formed for the positive theorem; "
         "distinct = distinct case line")
 ASSUMPTIONS = [
@@ -296,6 +298,23 @@ def cases(rng, tier):
         depth = rng.choice([1, 2, 2, 3, 4])
         seq = g_seq(rng, depth, False, mdc_class_ok=True, lookahead_ok=(i % 40 == 0))
         out.append(mk(rng, tier, seq))
+    # (g) re-entrant encode: the message's Display impl encodes another record through {m} while the
+    # outer record is being encoded (mode 6; the model sees mode 1)
+    for env in envs:
+        for seq in ([fmt("m")], [lit("["), fmt("m", (), spec(1, (None, 1), "12")), lit("]")],
+                    [fmt("", [[fmt("m"), lit(" "), fmt("l")]], spec(1, None, None, "7"))],
+                    [fmt("h", [[fmt("m")]]), lit(" "), fmt("message", (), spec(1, ("*", 0), "9", "9"))],
+                    [fmt("l"), lit(" "), fmt("t"), lit(" - "), fmt("m"), fmt("n")],
+                    [fmt("", [[fmt("", [[fmt("m")]], spec(1, ("~", 1), "6"))]], spec(1, None, None, "4"))]):
+            for k in range(2 if tier == "quick" else 8):
+                c = mk(rng, tier, seq, envsel=env)
+                c[0] = 6
+                out.append(c)
+        for k in range(10 if tier == "quick" else 100):
+            seq = g_seq(rng, rng.choice([1, 2, 3]), False) + [fmt("m")]
+            c = mk(rng, tier, seq, envsel=env)
+            c[0] = 6
+            out.append(c)
     # (f) the process's time zone changes while it runs (mode 5 switches TZ, the following cases
     # of the same process keep the new zone): local dates must follow the zone of the moment
     for env in envs:
